@@ -18,7 +18,7 @@ from simcore import env
 from simcore.util import digest, rng_for, to_jsonable
 
 from poolsim import oracles, workload
-from poolsim.simpool import Decider, DiskSeam, ProcGlobals, Sim, SimAbort, SimClock, SimCrash, SimParallelFactory
+from poolsim.simpool import Decider, DiskSeam, EntryPollution, InjectedTaskFault, ProcGlobals, Sim, SimAbort, SimClock, SimCrash, SimParallelFactory
 
 import quara
 from quara.settings import Settings
@@ -158,8 +158,10 @@ def execute_flow(cfg, schedule=None, rng=None, max_yields=None, keep_dir=False, 
         Settings.set_atol(cfg["parent_atol"])  # the caller changed the global tolerance before building its settings
         test_setting = workload.build_test_setting(cfg)
     res = {"ok": True}
+    tf = [] if is_ref else (schedule.get("task_fault") or [])
+    tf_targets = {"_execute_estimation": qsim._execute_estimation.__code__, "execute_simulation_case_unit": qflow.execute_simulation_case_unit.__code__}
     try:
-        with _Patches(sim, clock, disk):
+        with _Patches(sim, clock, disk), EntryPollution(tf, tf_targets, stats_f):
             pm = None if is_ref else (dict(cfg["parallel_mode"]) or None)
             results = qflow.execute_simulation_test_settings(
                 [test_setting], out_dir, pdf_mode="none", exec_sim_check=copy.deepcopy(cfg.get("exec_sim_check")), parallel_mode=pm,
@@ -172,6 +174,9 @@ def execute_flow(cfg, schedule=None, rng=None, max_yields=None, keep_dir=False, 
         res["globals_after"] = {"atol": Settings.get_atol() if not cfg.get("parent_atol") else 1e-13, "ineq_eps": pvc.get_ineq_const_eps()}
     except SimAbort as e:
         res = {"ok": False, "abort": str(e)}
+    except InjectedTaskFault as e:
+        # the only acceptable outcome of a failed task: the run fails with that error (nothing is returned)
+        res = {"ok": False, "task_fault_propagated": str(e)}
     except SimCrash as e:
         res = {"ok": False, "crash": str(e), "test_setting": test_setting}
         stats_f["crash_at_file_write"] = stats_f.get("crash_at_file_write", 0) + 1
@@ -212,6 +217,8 @@ def _clean_schedule(rec):
         out["stale_dir"] = True
     if rec.get("worker_cwd"):
         out["worker_cwd"] = True
+    if rec.get("task_fault"):
+        out["task_fault"] = rec["task_fault"]
     for e in rec.get("proc", []):
         out["proc"].append({k: v for k, v in e.items() if not k.startswith("_")})
     for e in rec.get("threads", []):
@@ -317,6 +324,8 @@ def run_record(record, want_record=True, gen=None):
                     finally:
                         Settings.set_atol(atol_saved2)
                     log.append(["crash", si, run["crash"].split("(")[0], digest(sorted(os.listdir(run["out_dir"])))])
+                elif not run["ok"] and "task_fault_propagated" in run:
+                    stats["probes"]["task_failure_propagated"] = stats["probes"].get("task_failure_propagated", 0) + 1
                 elif not run["ok"]:
                     viol.append({"oracle": "H0_parallel_run_fails", "what": f"run under simulated schedule {si} failed: {run.get('exception') or run.get('abort')}", "detail": {"schedule": si}, "signature": dict(sig_base, oracle="H0_parallel_run_fails")})
                 else:
@@ -345,6 +354,10 @@ def run_record(record, want_record=True, gen=None):
         if sum(run["faults"].values()):
             nontrivial = True
         sig = dict(sig_base, levels=oracles.level_signature(cfg))
+        if not run["ok"] and "task_fault_propagated" in run:
+            stats["probes"]["task_failure_propagated"] = stats["probes"].get("task_failure_propagated", 0) + 1
+            log.append(["task_fault", si])
+            continue
         if not run["ok"]:
             if "abort" in run:
                 viol.append({"oracle": "I3_progress", "what": run["abort"], "detail": {"schedule": si}, "signature": dict(sig, oracle="I3_progress")})
@@ -387,6 +400,9 @@ def gen_schedule_header(rng, cfg, fault_free, est, si):
 
 
 def _with_disk_faults(rng, cfg, hdr):
+    if rng.random() < 0.08:
+        # fault kind task_exception: one task fails; the run must fail with it, never return a silently incomplete result
+        hdr["task_fault"] = [[rng.choice(["_execute_estimation", "_execute_estimation", "execute_simulation_case_unit"]), rng.randint(1, 4), "raise", 0]]
     if rng.random() < 0.2:
         hdr["worker_cwd"] = True  # the pool's processes were started in another directory than the caller's current one
     cheap = not any(c["estimator"] == "lossmin" and c.get("loss") in ("se", "re") for c in cfg["cases"])
